@@ -271,3 +271,117 @@ Theorem C19_source_boxcox_inverse :
     Formulas_gen.BoxCox_normalize O lmbda (array_boxcox_elem O lmbda shift x) = x + shift.
 Proof. exact source_boxcox_inverse. Qed.
 Print Assumptions C19_source_boxcox_inverse.
+
+(* ---- second batch of ties (translator now handles given optional arguments, string selectors, calls between table functions) *)
+Theorem C19_tie_array_to_uniform :
+  forall (T : Type) (O : NumOps T) (field mean var low high : T),
+    Formulas_gen.array_to_uniform O field mean var low high = to_uniform_elem O mean var low high field.
+Proof. exact @array_to_uniform_tie. Qed.
+Print Assumptions C19_tie_array_to_uniform.
+
+Theorem C19_tie_array_zinnharvey :
+  forall (T : Type) (O : NumOps T) (field mean var : T),
+    Formulas_gen.array_zinnharvey_low O field mean var = zinnharvey_elem O false mean var field /\
+    Formulas_gen.array_zinnharvey_high O field mean var = zinnharvey_elem O true mean var field.
+Proof. intros; split; [apply array_zinnharvey_low_tie | apply array_zinnharvey_high_tie]. Qed.
+Print Assumptions C19_tie_array_zinnharvey.
+
+Theorem C19_tie_array_to_arcsin :
+  forall erf erfinv field mean var a b,
+    let O := Rops erf erfinv in
+    Formulas_gen.array_to_arcsin O field mean var a b = to_arcsin_elem O mean var a b field /\
+    Formulas_gen.array_to_arcsin_default_bounds O field mean var a b
+    = to_arcsin_elem O mean var (arcsin_default_a O mean var) (arcsin_default_b O mean var) field.
+Proof. intros; split; [apply array_to_arcsin_tie | apply array_to_arcsin_default_bounds_tie]. Qed.
+Print Assumptions C19_tie_array_to_arcsin.
+
+Theorem C19_tie_array_to_uquad :
+  forall erf erfinv field mean var a b,
+    let O := Rops erf erfinv in
+    Formulas_gen.array_to_uquad O field mean var a b = to_uquad_elem O mean var a b field /\
+    Formulas_gen.array_to_uquad_default_bounds O field mean var a b
+    = to_uquad_elem O mean var (uquad_default_a O mean var) (uquad_default_b O mean var) field.
+Proof. intros; split; [apply array_to_uquad_tie | apply array_to_uquad_default_bounds_tie]. Qed.
+Print Assumptions C19_tie_array_to_uquad.
+
+Theorem C19_tie_array_boxcox :
+  forall erf erfinv field lmbda shift,
+    Formulas_gen.array_boxcox (Rops erf erfinv) field lmbda shift = array_boxcox_elem (Rops erf erfinv) lmbda shift field.
+Proof. exact array_boxcox_tie. Qed.
+Print Assumptions C19_tie_array_boxcox.
+
+(* ---- the property theorems restated on the translated source terms (every function below is Formulas_gen.*) *)
+Theorem C19_source_uniform_pushforward :
+  forall erf erfinv, erf_hyps erf erfinv -> forall m v low high, 0 < v -> low < high ->
+    let O := Rops erf erfinv in
+    (forall x, cdf_uniform low high (Formulas_gen.array_to_uniform O x m v low high) = ncdf erf m v x) /\
+    (forall x, low < Formulas_gen.array_to_uniform O x m v low high < high) /\
+    (forall x y, x < y -> Formulas_gen.array_to_uniform O x m v low high < Formulas_gen.array_to_uniform O y m v low high).
+Proof. exact source_uniform_pushforward. Qed.
+Print Assumptions C19_source_uniform_pushforward.
+
+Theorem C19_source_arcsine_pushforward :
+  forall erf erfinv, erf_hyps erf erfinv -> forall m v a b, 0 < v -> a < b ->
+    let O := Rops erf erfinv in
+    (forall x, cdf_arcsine a b (Formulas_gen.array_to_arcsin O x m v a b) = ncdf erf m v x) /\
+    (forall x, a < Formulas_gen.array_to_arcsin O x m v a b < b) /\
+    (forall x y, x < y -> Formulas_gen.array_to_arcsin O x m v a b < Formulas_gen.array_to_arcsin O y m v a b).
+Proof. exact source_arcsine_pushforward. Qed.
+Print Assumptions C19_source_arcsine_pushforward.
+
+Theorem C19_source_uquad_pushforward :
+  forall erf erfinv, erf_hyps erf erfinv -> forall m v a b, 0 < v -> a < b ->
+    let O := Rops erf erfinv in
+    (forall x, cdf_uquad a b (Formulas_gen.array_to_uquad O x m v a b) = ncdf erf m v x) /\
+    (forall x, a < Formulas_gen.array_to_uquad O x m v a b < b) /\
+    (forall x y, x < y -> Formulas_gen.array_to_uquad O x m v a b < Formulas_gen.array_to_uquad O y m v a b).
+Proof. exact source_uquad_pushforward. Qed.
+Print Assumptions C19_source_uquad_pushforward.
+
+(* default bounds (a = b = None): the source's own bounds are a proper interval whose law has mean m and variance v,
+   and N(m, v) is pushed forward to that law (a0, b0 are the unused bound arguments of the translated term) *)
+Theorem C19_source_arcsine_default_bounds :
+  forall erf erfinv, erf_hyps erf erfinv -> forall m v, 0 < v ->
+    let O := Rops erf erfinv in
+    let a := m - sqrt (2 * v) in
+    let b := m + sqrt (2 * v) in
+    a < b /\ arcsine_mean a b = m /\ arcsine_var a b = v /\
+    (forall x a0 b0, cdf_arcsine a b (Formulas_gen.array_to_arcsin_default_bounds O x m v a0 b0) = ncdf erf m v x) /\
+    (forall x y a0 b0, x < y ->
+       Formulas_gen.array_to_arcsin_default_bounds O x m v a0 b0 < Formulas_gen.array_to_arcsin_default_bounds O y m v a0 b0).
+Proof. exact source_arcsine_default. Qed.
+Print Assumptions C19_source_arcsine_default_bounds.
+
+Theorem C19_source_uquad_default_bounds :
+  forall erf erfinv, erf_hyps erf erfinv -> forall m v, 0 < v ->
+    let O := Rops erf erfinv in
+    let a := m - sqrt (5 / 3 * v) in
+    let b := m + sqrt (5 / 3 * v) in
+    a < b /\ uquad_mean a b = m /\ uquad_var a b = v /\
+    (forall x a0 b0, cdf_uquad a b (Formulas_gen.array_to_uquad_default_bounds O x m v a0 b0) = ncdf erf m v x) /\
+    (forall x y a0 b0, x < y ->
+       Formulas_gen.array_to_uquad_default_bounds O x m v a0 b0 < Formulas_gen.array_to_uquad_default_bounds O y m v a0 b0).
+Proof. exact source_uquad_default. Qed.
+Print Assumptions C19_source_uquad_default_bounds.
+
+Theorem C19_source_zinnharvey_normal :
+  forall erf erfinv, erf_hyps erf erfinv -> forall m v, 0 < v ->
+    let O := Rops erf erfinv in
+    (forall x, x <> m ->
+       ncdf erf m v (Formulas_gen.array_zinnharvey_low O x m v) = halfnormal_cdf erf (Rabs ((x - m) / sqrt v)) /\
+       ncdf erf m v (Formulas_gen.array_zinnharvey_high O x m v) = 1 - halfnormal_cdf erf (Rabs ((x - m) / sqrt v))) /\
+    (forall x y, x <> m -> Rabs (x - m) < Rabs (y - m) ->
+       Formulas_gen.array_zinnharvey_low O x m v < Formulas_gen.array_zinnharvey_low O y m v /\
+       Formulas_gen.array_zinnharvey_high O y m v < Formulas_gen.array_zinnharvey_high O x m v) /\
+    (forall x, Formulas_gen.array_zinnharvey_high O x m v - m = - (Formulas_gen.array_zinnharvey_low O x m v - m)).
+Proof. exact source_zinnharvey. Qed.
+Print Assumptions C19_source_zinnharvey_normal.
+
+(* Box-Cox round trip with BOTH sides translated from the source: BoxCox._normalize (array_boxcox x) = x + shift *)
+Theorem C19_source_boxcox_roundtrip :
+  forall erf erfinv lmbda shift x,
+    let O := Rops erf erfinv in
+    fisclose O lmbda (n0 O) = true \/ 0 < lmbda * (x + shift) + 1 ->
+    Formulas_gen.BoxCox_normalize O lmbda (Formulas_gen.array_boxcox O x lmbda shift) = x + shift.
+Proof. exact source_boxcox_roundtrip. Qed.
+Print Assumptions C19_source_boxcox_roundtrip.
